@@ -178,10 +178,17 @@ func vh_exec() {
 	if vBool("timeout_configured") {
 		c.timeout = time.Second
 	}
+	// the deprecated global TimeoutLimit: when exceeded, the timed-out request itself closes the connection
+	TimeoutLimit = 0
+	if vBool("timeout_limit_set") {
+		TimeoutLimit = 1
+		c.timeouts = int64(vChoose("timeouts_so_far", 3))
+	}
 	// an unrelated outstanding call
 	other := int(vI16("other_stream"))
 	vAssume(other >= 1 && other < c.streams.NumStreams)
 	otherCall := &callReq{streamID: other, resp: make(chan callResp), timeout: make(chan struct{})}
+	vEnvChan(otherCall.resp) // its caller is waiting for the response (a caller that gave up would have closed timeout)
 	if vBool("other_outstanding") {
 		c.calls[other] = otherCall
 	}
@@ -296,7 +303,11 @@ func vstubReadHeader(r io.Reader, p []byte) (frameHeader, error) { return vHead,
 // vGiveUpDuringBody: the caller of this call may time out / be cancelled while the body is being read
 var vGiveUpDuringBody *callReq
 
+// vReadFramers: every framer recv used to read a frame body (responses, events, reserved streams)
+var vReadFramers []*framer
+
 func vstubReadFrame(f *framer, r io.Reader, head *frameHeader) error {
+	vReadFramers = append(vReadFramers, f)
 	if c := vGiveUpDuringBody; c != nil && !vIsClosed(c.timeout) && vBool("caller_gives_up_while_the_body_is_read") {
 		close(c.timeout)
 	}
@@ -347,8 +358,19 @@ func vh_recv() {
 	}
 	wasClosed := c.closed
 	vGiveUpDuringBody = c1
+	// C18: a negotiated compressor applies to everything the server sends, pushed events included: the framer
+	// that reads any body must carry the connection's compressor (readFrame decompresses with it)
+	var comp Compressor
+	if vBool("compressor_negotiated") {
+		comp = vComp{"c"}
+		c.compressor = comp
+	}
+	vReadFramers = nil
 	err := c.recv(ctx)
 	vGiveUpDuringBody = nil
+	for _, f := range vReadFramers {
+		vAssert(f.compres == comp, "C18/recv/every-received-frame-is-read-with-the-negotiated-compressor")
+	}
 
 	s := vHead.stream
 	sent1, sent2 := vSentOn(c1.resp), vSentOn(c2.resp)
